@@ -97,9 +97,14 @@ pub fn run_case(line: &str) -> String {
     let files = parts.next().unwrap_or("");
     let queries = parts.next().unwrap_or("");
     let dir = TmpDir::new();
+    // a stem written `+Stem` is also OPEN in the editor (didChange with the same text before the first query): the
+    // document object is then kept by the server, also when it is first analysed as a dependency of another file
+    let mut opened: Vec<(String, String)> = Vec::new();
     for f in files.split(';').filter(|s| !s.is_empty()) {
         let (stem, cps) = match f.split_once('=') { Some(x) => x, None => return "BADCASE".to_string() };
-        std::fs::write(dir.0.join(format!("{}.god", stem)), cps_to_string(cps).as_bytes()).unwrap();
+        let text = cps_to_string(cps);
+        let stem = match stem.strip_prefix('+') { Some(s) => { opened.push((s.to_string(), text.clone())); s } None => stem };
+        std::fs::write(dir.0.join(format!("{}.god", stem)), text.as_bytes()).unwrap();
     }
     let qs: Vec<Query> = queries.split(';').filter(|s| !s.is_empty()).map(|q| {
         let f: Vec<&str> = q.splitn(5, ',').collect();
@@ -115,6 +120,13 @@ pub fn run_case(line: &str) -> String {
             Err(e) => { for _ in 0..2 * n { let _ = tx.send(format!("ERR-NEW {}", clean(&e.msg))); } return; }
         };
         pm.index_files();
+        if !opened.is_empty() {
+            let pool = crate::threadpool::ThreadPool::new(1, Box::new(SilentLogger));
+            for (stem, text) in opened.iter() {
+                let uri = lsp_types::Url::from_file_path(root.join(format!("{}.god", stem))).unwrap();
+                let _ = pm.notify_document_changed(&uri, text, &pool);
+            }
+        }
         for q in qs.iter() {
             let uri = lsp_types::Url::from_file_path(root.join(format!("{}.god", q.stem))).unwrap();
             let pos = Position::new(q.line, q.col);
